@@ -96,12 +96,22 @@ def judge(case, go):
 def attributable(f, what, detail):
     """a breach is covered by a listed finding only if it is of that kind and the finding's precondition holds on this document"""
     import re
-    if not f.get("match") or f["match"] not in what:
+    ms = f.get("match")
+    ms = [ms] if isinstance(ms, str) else (ms or [])
+    if not any(x in what for x in ms):
+        return False
+    if f.get("needs_circular") and not detail.get("circular"):
         return False
     if f.get("first_run_has") and not any(re.search(f["first_run_has"], m) for m in detail.get("first_run_errors", [])):
         return False
     if f.get("first_run_invalid") and not detail.get("first_run_errors"):
         return False
+    if f.get("needs_path_collision") and not detail.get("path_collision"):
+        return False
+    if f.get("diff_not_rules"):
+        diff = list(detail.get("only_first", [])) + list(detail.get("only_second", [])) + list(detail.get("missing", []))
+        if not diff or any(S.classify(m) is not None for m in diff):
+            return False
     if f.get("diff_only"):
         diff = list(detail.get("only_first", [])) + list(detail.get("only_second", []))
         if not diff or not all(re.search(f["diff_only"], m) for m in diff):
@@ -122,14 +132,15 @@ def correspond(ctx, C):
             continue
         orders += len(go.get("runs", []))
         for what, detail in judge(r["case"], go):
+            detail = dict(detail, path_collision=bool((r.get("m") or {}).get("pathCollision")), circular=bool((r.get("m") or {}).get("circular")))
             k = next((f for f in known if attributable(f, what, detail)), None)
             if k:
                 attributed[k["id"]] = attributed.get(k["id"], 0) + 1
             else:
-                viol.append((r["case"], dict({k_: v for k_, v in detail.items() if k_ != "first_run_errors"}, what=what)))
+                viol.append((r["case"], dict({k_: v for k_, v in detail.items() if k_ not in ("first_run_errors", "path_collision", "circular")}, what=what)))
     lines = []
     for f, row in S.replay_known(C, "C10"):
-        if any(attributable(f, w, d) for w, d in judge(row["case"], row["go"])):
+        if any(attributable(f, w, dict(d, path_collision=bool((row.get("m") or {}).get("pathCollision")), circular=bool((row.get("m") or {}).get("circular")))) for w, d in judge(row["case"], row["go"])):
             lines.append("%s (%s) [%s]" % (f["what"], f["site"], f["id"]))
     cov = st.coverage(RULE)
     cov["attributed_to_known_findings"] = attributed
